@@ -111,71 +111,58 @@ example : (run 2 C06_demo_f (C06_demo ++ [.eval 0])).out.length = 2 := by decide
 from the source on every run -/
 theorem C06_apply_waits_all : Extracted.Evaluator.applyWaitsAllCompleted = true := by decide
 
-/-! ### 3-phase engine: violated on the pinned tree (known finding, regime `ThreePhaseDifferentStart`) -/
+/-! ### 3-phase engine (with `fixes/C06-3phase-resync.patch`): holds in full -/
 
-/-- Full statement for `FormulaEngine3Phase` (`t0 p i`, `src p i`: stream `i` of phase `p`): every emitted sample
-carries a timestamp `T` and each phase value is the phase formula on that phase's samples stamped `T`. -/
+/-- The model's 3-phase round is the resynchronising one only if the source is: regenerated from
+`FormulaEngine3Phase._run` on every run.  On the pinned tree (`_run` zips the three per-phase engines without
+comparing timestamps) this does not build, and the check searches (and finds) the failing input. -/
+theorem C06_3phase_resyncs : Extracted.Evaluator.threePhaseResyncs = true := by decide
+
+/-- Full statement for `FormulaEngine3Phase` (`t0 p i`, `src p i`: stream `i` of phase `p`): the `k`-th emitted
+sample carries one timestamp `T = T0 + k`, `T0` the latest of the first timestamps of *all* streams (no skip, repeat
+or reorder), and each of its three values is that phase's formula on that phase's samples stamped `T`. -/
 def C06_3phase_statement : Prop :=
   ∀ (P1 P2 P3 : Phase) (t0 : Nat → Nat → Int) (src : Nat → Nat → Int → Option Rat) (es : List Ev3),
-    0 < P1.n → 0 < P2.n → 0 < P3.n → AdmFrom3 P1 P2 P3 t0 src St3.init es →
-    ∀ (k : Nat) (o : Sample3), (run3 P1 P2 P3 es).out[k]? = some o →
+    0 < P1.n → 0 < P2.n → 0 < P3.n → AdmFrom3 true P1 P2 P3 t0 src St3.init es →
+    ∀ (k : Nat) (o : Sample3), (run3 true P1 P2 P3 es).out[k]? = some o →
+      o.ts = maxStart3 P1 P2 P3 t0 + k ∧
       o.v1 = P1.f (valuesAt P1.n (src 0) o.ts) ∧ o.v2 = P2.f (valuesAt P2.n (src 1) o.ts) ∧
       o.v3 = P3.f (valuesAt P3.n (src 2) o.ts)
 
-/-- the pinned `_run` zips the three engines without comparing timestamps — regenerated from the source -/
-theorem C06_3phase_pinned : Extracted.Evaluator.threePhaseZipUnsynchronised = true := by decide
+theorem C06_3phase_full : C06_3phase_statement := by
+  intro P1 P2 P3 t0 src es h1 h2 h3 ha k o ho
+  have := (inv3_run h1 h2 h3 es ha).outs k o ho
+  subst this
+  exact ⟨rfl, rfl, rfl, rfl⟩
+
+/-- Consecutive 3-phase samples are exactly one input step apart. -/
+theorem C06_3phase_step (P1 P2 P3 : Phase) (t0 : Nat → Nat → Int) (src : Nat → Nat → Int → Option Rat)
+    (es : List Ev3) (h1 : 0 < P1.n) (h2 : 0 < P2.n) (h3 : 0 < P3.n)
+    (ha : AdmFrom3 true P1 P2 P3 t0 src St3.init es) (k : Nat) (o o' : Sample3)
+    (ho : (run3 true P1 P2 P3 es).out[k]? = some o) (ho' : (run3 true P1 P2 P3 es).out[k + 1]? = some o') :
+    o'.ts = o.ts + 1 := by
+  have e1 := (C06_3phase_full P1 P2 P3 t0 src es h1 h2 h3 ha k o ho).1
+  have e2 := (C06_3phase_full P1 P2 P3 t0 src es h1 h2 h3 ha (k + 1) o' ho').1
+  push_cast at e2
+  omega
 
 def C06_w_phase : Phase := ⟨1, fun l => l.headD none⟩
 def C06_w_t0 : Nat → Nat → Int := fun p _ => p
 def C06_w_src : Nat → Nat → Int → Option Rat := fun p _ t => some (((p + 1) * 100 + t : Int) : Rat)
-/-- Witness: one stream per phase, first delivered at ticks 0 / 1 / 2. -/
+/-- Witness schedule: one stream per phase, first delivered at ticks 0 / 1 / 2 (= corpus/C06/three_phase_different_start). -/
 def C06_witness : List Ev3 :=
-  [.ph 0 (.deliver 0 ⟨0, some 100⟩), .ph 1 (.deliver 0 ⟨1, some 201⟩), .ph 2 (.deliver 0 ⟨2, some 302⟩),
-   .ph 0 (.eval 0), .ph 1 (.eval 0), .ph 2 (.eval 0), .zip]
+  [.ph 0 (.deliver 0 ⟨0, some 100⟩), .ph 0 (.eval 0), .ph 0 (.deliver 0 ⟨1, some 101⟩), .ph 0 (.eval 0),
+   .ph 1 (.deliver 0 ⟨1, some 201⟩), .ph 1 (.eval 0), .ph 0 (.deliver 0 ⟨2, some 102⟩), .ph 0 (.eval 0),
+   .ph 1 (.deliver 0 ⟨2, some 202⟩), .ph 1 (.eval 0), .ph 2 (.deliver 0 ⟨2, some 302⟩), .ph 2 (.eval 0), .zip,
+   .ph 0 (.deliver 0 ⟨3, some 103⟩), .ph 0 (.eval 0), .ph 1 (.deliver 0 ⟨3, some 203⟩), .ph 1 (.eval 0),
+   .ph 2 (.deliver 0 ⟨3, some 303⟩), .ph 2 (.eval 0), .zip]
 
-theorem C06_3phase_full_refuted : ¬ C06_3phase_statement := by
-  intro h
-  have := h C06_w_phase C06_w_phase C06_w_phase C06_w_t0 C06_w_src C06_witness (by decide) (by decide) (by decide)
-    (by decide) 0 ⟨0, some 100, some 201, some 302⟩ (by decide)
-  exact absurd this.2.1 (by decide)
+/-- non-vacuity: on the witness the resynchronising engine emits ticks 2 and 3, each from one timestamp -/
+example : AdmFrom3 true C06_w_phase C06_w_phase C06_w_phase C06_w_t0 C06_w_src St3.init C06_witness ∧
+    (run3 true C06_w_phase C06_w_phase C06_w_phase C06_witness).out =
+      [⟨2, some 102, some 202, some 302⟩, ⟨3, some 103, some 203, some 303⟩] := by decide
 
-/-- What the pinned 3-phase engine emits: the k-th sample is stamped with phase 1's `T0 + k` and pairs it with the
-values of phases 2 and 3 at *their own* `T0 + k`. -/
-theorem C06_3phase_shape (P1 P2 P3 : Phase) (t0 : Nat → Nat → Int) (src : Nat → Nat → Int → Option Rat)
-    (es : List Ev3) (h1 : 0 < P1.n) (h2 : 0 < P2.n) (h3 : 0 < P3.n)
-    (ha : AdmFrom3 P1 P2 P3 t0 src St3.init es) (k : Nat) (o : Sample3)
-    (ho : (run3 P1 P2 P3 es).out[k]? = some o) :
-    o.ts = maxStart P1.n (t0 0) + k ∧
-    o.v1 = P1.f (valuesAt P1.n (src 0) (maxStart P1.n (t0 0) + k)) ∧
-    o.v2 = P2.f (valuesAt P2.n (src 1) (maxStart P2.n (t0 1) + k)) ∧
-    o.v3 = P3.f (valuesAt P3.n (src 2) (maxStart P3.n (t0 2) + k)) := by
-  have hinv := inv3_run h1 h2 h3 es ha
-  obtain ⟨a, b, c, ha', hb', hc', rfl⟩ := hinv.zipped k o ho
-  rw [hinv.i1.outs k a ha', hinv.i2.outs k b hb', hinv.i3.outs k c hc']
-  exact ⟨rfl, rfl, rfl, rfl⟩
-
-/-- **Partial** (complement of the regime `ThreePhaseDifferentStart`): when the three per-phase engines have the
-same first common timestamp, every 3-phase sample is computed from inputs of its own timestamp, and the timestamps
-advance one step at a time from that common start. -/
-theorem C06_3phase_partial (P1 P2 P3 : Phase) (t0 : Nat → Nat → Int) (src : Nat → Nat → Int → Option Rat)
-    (es : List Ev3) (h1 : 0 < P1.n) (h2 : 0 < P2.n) (h3 : 0 < P3.n)
-    (ha : AdmFrom3 P1 P2 P3 t0 src St3.init es)
-    (hH : maxStart P1.n (t0 0) = maxStart P2.n (t0 1) ∧ maxStart P2.n (t0 1) = maxStart P3.n (t0 2))
-    (k : Nat) (o : Sample3) (ho : (run3 P1 P2 P3 es).out[k]? = some o) :
-    o.ts = maxStart P1.n (t0 0) + k ∧
-    o.v1 = P1.f (valuesAt P1.n (src 0) o.ts) ∧ o.v2 = P2.f (valuesAt P2.n (src 1) o.ts) ∧
-    o.v3 = P3.f (valuesAt P3.n (src 2) o.ts) := by
-  obtain ⟨e0, e1, e2, e3⟩ := C06_3phase_shape P1 P2 P3 t0 src es h1 h2 h3 ha k o ho
-  refine ⟨e0, ?_, ?_, ?_⟩
-  · rw [e0]; exact e1
-  · rw [e0, hH.1]; exact e2
-  · rw [e0, hH.1, hH.2]; exact e3
-
-/-- non-vacuity: the same three streams all starting at tick 1 -/
-example : AdmFrom3 C06_w_phase C06_w_phase C06_w_phase (fun _ _ => 1) C06_w_src St3.init
-    [.ph 0 (.deliver 0 ⟨1, some 101⟩), .ph 1 (.deliver 0 ⟨1, some 201⟩), .ph 2 (.deliver 0 ⟨1, some 301⟩),
-     .ph 0 (.eval 0), .ph 1 (.eval 0), .ph 2 (.eval 0), .zip] ∧
-    (run3 C06_w_phase C06_w_phase C06_w_phase
-      [.ph 0 (.deliver 0 ⟨1, some 101⟩), .ph 1 (.deliver 0 ⟨1, some 201⟩), .ph 2 (.deliver 0 ⟨1, some 301⟩),
-       .ph 0 (.eval 0), .ph 1 (.eval 0), .ph 2 (.eval 0), .zip]).out = [⟨1, some 101, some 201, some 301⟩] := by
-  decide
+/-- The pinned semantics (plain zip, `resync = false`) violates the statement on the same schedule: the first sample
+is stamped tick 0 and mixes the values of ticks 0, 1 and 2 — and the shift persists. -/
+example : (run3 false C06_w_phase C06_w_phase C06_w_phase C06_witness).out =
+      [⟨0, some 100, some 201, some 302⟩, ⟨1, some 101, some 202, some 303⟩] := by decide
